@@ -72,7 +72,7 @@ func VerifControllerDual(nsvc, layout, recorded int) {
 			svc.Spec.IPFamilies = append(svc.Spec.IPFamilies, v1.IPv6Protocol)
 		}
 		svc.Spec.ClusterIP = svc.Spec.ClusterIPs[0]
-		if recorded >= 1 && i == 0 && s.c4 {
+		if recorded >= 1 && recorded <= 2 && i == 0 && s.c4 {
 			svc.Status.LoadBalancer.Ingress = []v1.LoadBalancerIngress{{IP: "10.0.0.0"}}
 			svc.Annotations[AnnotationIPAllocateFromPool] = "p0"
 		}
@@ -92,6 +92,13 @@ func VerifControllerDual(nsvc, layout, recorded int) {
 				svc.Status.LoadBalancer.Ingress = []v1.LoadBalancerIngress{{IP: "10.0.0.1"}, {IP: "fd00::"}}
 				s.rec = []string{"10.0.0.1", "fd00::"}
 			}
+		}
+		if recorded == 4 && i == 0 && s.c4 && s.c6 {
+			// the Service holds a pair and the user now asks for one of the two addresses only
+			svc.Status.LoadBalancer.Ingress = []v1.LoadBalancerIngress{{IP: "10.0.0.0"}, {IP: "fd00::"}}
+			svc.Annotations[AnnotationIPAllocateFromPool] = "p0"
+			svc.Annotations[AnnotationLoadBalancerIPs] = []string{"10.0.0.0", "fd00::"}[vr.Choose(2)]
+			s.req = []string{svc.Annotations[AnnotationLoadBalancerIPs]}
 		}
 		if recorded == 2 && i == 0 && s.c4 && s.c6 {
 			// the user asks for the address held plus a specific address of the other family
@@ -183,8 +190,8 @@ func VerifControllerDual(nsvc, layout, recorded int) {
 		cap6 = 1
 	}
 	for i, s := range specs {
-		if len(api.objs[s.name].Status.LoadBalancer.Ingress) != 0 {
-			continue
+		if len(api.objs[s.name].Status.LoadBalancer.Ingress) != 0 || len(s.req) > 0 {
+			continue // explicit requests are satisfied exactly or not at all
 		}
 		free4, free6 := cap4-held4 > 0, cap6-held6 > 0
 		var could bool
